@@ -1,6 +1,7 @@
 (* C09 — a successful unlocked vet leaves files with which a --locked vet succeeds;
    a failing run leaves the store unchanged. *)
 Require Import Base Extracted Criteria Search AuditGraph DepGraph Resolve Update Commands.
+Require Import StoreVersion StoreVersionProofs.
 Require Import UpdateProofs UpdateKeep EndToEnd.
 Local Open Scope N_scope.
 
@@ -43,9 +44,21 @@ Theorem C09_locked_check_succeeds_after_unlocked_check : forall inp s s1,
   store_ok inp s -> cmd_check false inp s = Some s1 -> has_errors (resolve inp s1) = false.
 Proof. exact check_then_locked. Qed.
 
+(* the store-version rule (StoreVersion.v, model of the check at the head of Store::acquire_offline; its three facts are re-read
+   from the source): whatever version an unlocked run found in config.toml, what it commits is accepted by `--locked`; an older
+   store is upgraded by an unlocked run only; a newer one is refused *)
+Theorem C09_locked_accepts_the_version_an_unlocked_run_wrote : forall current stored v,
+  version_after_unlocked_run current stored = Some v -> acquire_version current v true = AOk current.
+Proof. exact locked_accepts_what_unlocked_wrote. Qed.
+Theorem C09_older_store_upgraded_only_unlocked : forall current stored, stored < current ->
+  version_after_unlocked_run current stored = Some current /\ acquire_version current stored true = AOutdated.
+Proof. exact older_store_upgraded_only_unlocked. Qed.
+
 Print Assumptions C09_failing_run_writes_nothing.
 Print Assumptions C09_required_local_audit_kept.
 Print Assumptions C09_required_imported_audit_kept.
 Print Assumptions C09_required_wildcard_kept.
 Print Assumptions C09_required_publisher_kept.
 Print Assumptions C09_locked_check_succeeds_after_unlocked_check.
+Print Assumptions C09_locked_accepts_the_version_an_unlocked_run_wrote.
+Print Assumptions C09_older_store_upgraded_only_unlocked.
